@@ -12,7 +12,11 @@
 (*             attrs   : "none" (field absent) | "empty" | "present",                                *)
 (*             ctattr  : contentType attribute ("data" | "spc" | "other" | "absent"),                *)
 (*             md      : messageDigest attribute = H(identity) | "junk" | "absent",                   *)
-(*             order   : "canonical" (DER SET OF order) | "swapped"]]                                *)
+(*             order   : "canonical" (DER SET OF order) | "swapped",                                  *)
+(*             alg     : "sha256" | "sha1" - digest algorithm the signer info is made with (message     *)
+(*                       digest and RSA signature),                                                   *)
+(*             unauth  : "none" | identity of a content: unauthenticatedAttributes carrying a           *)
+(*                       messageDigest of that content (anybody can add them; the rule ignores them)]]  *)
 (* A verifying certificate is [sid, key].  "A", "At", "Ae", "Ac" share issuer+serial and differ in the key *)
 (* (another RSA key, a key of another kind: nothing was ever signed with those).                    *)
 EXTENDS Integers, Sequences, FiniteSets, TLC
@@ -31,7 +35,8 @@ OverAttrsAsTheyAppear(s) == \/ s.sigOver = "attrs_as_encoded"
 SignerVerifies(b, s, c) ==
   /\ s.sid = c.sid                                  \* signer entry names the certificate's issuer and serial
   /\ s.attrs # "none"                               \* carries signed attributes
-  /\ s.sigKey = c.key /\ OverAttrsAsTheyAppear(s)   \* RSA-SHA256 valid under the certificate's key over them
+  /\ s.alg = "sha256"                               \* an RSA-SHA256 signature (a consistent RSA-SHA1 signer info does not count)
+  /\ s.sigKey = c.key /\ OverAttrsAsTheyAppear(s)   \* valid under the certificate's key over them
   /\ (b.content # "none" => s.attrs = "present" /\ s.md = b.content)   \* bound to the encapsulated content
 RFCVerify(b, c) == \E i \in 1..Len(b.signers) : SignerVerifies(b, b.signers[i], c)
 
@@ -41,8 +46,8 @@ VerifyImage(b, c, img) == b.ct = "spc" /\ DigestCarried(b.content) = img /\ RFCV
 
 (* what an honest RFC 2315 producer emits for (key/cert n, ct, content) *)
 HonestSigner(n, ct, content) == [sid |-> Cert(n).sid, sigKey |-> Cert(n).key, sigOver |-> "attrs_as_encoded", attrs |-> "present",
-                                 ctattr |-> ct, md |-> content, order |-> "canonical"]
-IsHonest(b, s) == /\ s.attrs = "present" /\ s.sigOver = "attrs_as_encoded" /\ s.order = "canonical" /\ s.ctattr = b.ct
+                                 ctattr |-> ct, md |-> content, order |-> "canonical", alg |-> "sha256", unauth |-> "none"]
+IsHonest(b, s) == /\ s.alg = "sha256" /\ s.unauth = "none" /\ s.attrs = "present" /\ s.sigOver = "attrs_as_encoded" /\ s.order = "canonical" /\ s.ctattr = b.ct
                   /\ (b.content # "none" => s.md = b.content) /\ s.md \notin {"junk", "absent"}
                   /\ \E n \in CertNames : s.sid = Cert(n).sid /\ s.sigKey = Cert(n).key
 
